@@ -177,9 +177,6 @@ def h_distance_mask(ctx):
         kw["projection"] = lambda x, y: (x * a + pb, y * c + pd)
         sc = (a, c)
     d2s = {idx: _general_position(ctx, qe[idx], qn[idx], pts, sc) for idx in np.ndindex(*qsh)}
-    for idx in np.ndindex(*qsh):
-        for v in d2s[idx]:
-            ctx.assume(Not(eq(v, maxdist * maxdist)) if ctx.sym else bool(abs(v - maxdist * maxdist) > 1e-7 * (1 + abs(v))))
     mask = vd.distance_mask((e, n), maxdist, coordinates=(qe, qn), **kw)
     ctx.claim("mask has the shape of the query arrays", np.shape(mask) == qsh)
     if np.shape(mask) != qsh:
@@ -200,11 +197,6 @@ def h_mask_grid(ctx):
     vals = ctx.reals("v", (len(gn), len(ge_)))
     dims = tuple(cfg.get("dims", ("northing", "easting")))
     grid = xr.Dataset({"scalars": (dims, vals)}, coords={dims[1]: ge_, dims[0]: gn})
-    for i in range(len(gn)):
-        for j in range(len(ge_)):
-            for p in pts:
-                v = (_x(ctx, ge_[j]) - _x(ctx, p[0])) ** 2 + (_x(ctx, gn[i]) - _x(ctx, p[1])) ** 2
-                ctx.assume(Not(eq(maxdist * maxdist, v)) if ctx.sym else bool(abs(maxdist * maxdist - v) > 1e-7 * (1 + v)))
     out = vd.distance_mask((e, n), maxdist, grid=grid)
     ee, nn = np.meshgrid(ge_, gn)
     arr = vd.distance_mask((e, n), maxdist, coordinates=(ee, nn))
